@@ -1,0 +1,41 @@
+//! Verification hooks (cargo feature `verif-hooks`, off by default).
+//!
+//! Nothing in here changes library behaviour unless a test harness explicitly
+//! installs an override on the calling thread.
+#![allow(missing_docs)]
+
+use std::cell::Cell;
+
+/// H1: crate-private polynomial helpers, re-exported for direct checking.
+pub mod polysmallmod {
+    pub use crate::util::polysmallmod::*;
+}
+
+thread_local! {
+    static ENTROPY_OVERRIDE: Cell<Option<(u64, u64)>> = const { Cell::new(None) };
+}
+
+/// H2: install (Some(base)) or remove (None) a deterministic entropy source for
+/// every `BlakeRNGFactory::get_rng` call made with `use_random_seed` on this thread.
+pub fn set_entropy_override(base: Option<u64>) {
+    ENTROPY_OVERRIDE.with(|c| c.set(base.map(|b| (b, 0))));
+}
+
+/// Is an override installed on this thread?
+pub fn entropy_override_installed() -> bool {
+    ENTROPY_OVERRIDE.with(|c| c.get().is_some())
+}
+
+pub(crate) fn next_entropy_seed() -> Option<[u8; 64]> {
+    ENTROPY_OVERRIDE.with(|c| {
+        let (base, counter) = c.get()?;
+        c.set(Some((base, counter.wrapping_add(1))));
+        let mut hasher = blake3::Hasher::new();
+        hasher.update(b"heathcliff-verif-entropy");
+        hasher.update(&base.to_le_bytes());
+        hasher.update(&counter.to_le_bytes());
+        let mut seed = [0u8; 64];
+        hasher.finalize_xof().fill(&mut seed);
+        Some(seed)
+    })
+}
